@@ -6,6 +6,7 @@ from .. import lib as L
 
 NS = "llguidance::earley::parser::"
 PS = NS + "ParserState"
+SCR = NS + "Scratch"
 TP = "llguidance::tokenparser::TokenParser"
 CU = "llguidance::panic_utils::catch_unwind"
 LP = "llguidance::lark::parser::Parser"
@@ -440,6 +441,38 @@ def run(ctx):
     ctx.check(len(sets) >= 2 and bool(L.guard_edges(wil, lambda e: e[0] == "bin" and e[1] == "Gt" and L.is_field_read(STATS, "all_items")(L.strip_wrappers(e[2])), True)),
               "C20-R7", "with_items_limit:sets-reports-resets", "with_items_limit sets the budget, reports an overrun as a parser error, and resets it",
               "with_items_limit no longer sets/reports/resets the item budget", site=wil.where())
+
+    # ------------------------------------------------------------------ R8 speculation never pops below its base
+    # A mask computation works on top of the committed lexer stack and must leave it as it found it (otherwise the next
+    # assert_definitive() panics: `num_rows=.. row_infos=..`).  pop_lexer_states() is the only primitive that pops; its
+    # callers are the bracket close (pops exactly len - base), the recogniser's pop_bytes (pops what the walk pushed) and
+    # handle_hidden_bytes (stop= lexemes), which pops `hidden_bytes.len() - 1` entries — a count that comes from the
+    # lexeme, not from what the walk pushed, and is not compared with the speculation base.
+    POP = PS + "::pop_lexer_states"
+    popc = sorted(c for c in P.callers_of(POP) if c in P.bodies)
+    POP_BOUNDED = {
+        PS + "::trie_finished_inner": "pops lexer_stack.len() - <base recorded by trie_started_inner>",
+        "<llguidance::earley::parser::ParserRecognizer<'_> as toktrie::toktree::Recognizer>::pop_bytes": "pops bytes the trie walk itself pushed",
+    }
+    for c in popc:
+        cbod = P.bodies[c]
+        if c in POP_BOUNDED:
+            ctx.ok("C20-R8", "pop-bounded:" + c.rsplit("::", 1)[1], POP_BOUNDED[c])
+            continue
+        sites = cbod.call_blocks(POP)
+        base_fields = [f["name"] for f in P.adts[PS]["variants"][0]["fields"]]
+        # a guard that relates the count / the stack length to the speculation base, or restricts the pop to definitive mode
+        def base_guard(e):
+            txt = F.fmt_expr(e)
+            return ("definitive" in txt) or any(("." + n) in txt or txt.startswith(n) for n in ("trie_lexer_stack",)) or L.is_field_read(SCR, "definitive")(L.strip_wrappers(e))
+        g = L.guard_edges_multi(cbod, [(base_guard, True), (base_guard, False)])
+        still = L.dominated_by_cut(cbod, sites, g) if g else sites
+        ctx.check(not still, "C20-R8", "speculative-pop-below-base:" + c.rsplit("::", 1)[1],
+                  "the pop is bounded by the speculation base or restricted to definitive mode",
+                  "%s pops lexer states by a count taken from the lexeme (hidden bytes) with no comparison against the speculation base: "
+                  "during a mask computation it can remove committed entries, and the next assert_definitive() panics" % c,
+                  site=cbod.where(sites[0]) if sites else cbod.where())
+    ctx.floor("C20-R8", "callers of pop_lexer_states", len(popc), 3)
 
     # ------------------------------------------------------------------ R6 token id range checks
     vt = ctx.body(TP + "::validate_tokens_raw")
